@@ -143,6 +143,29 @@ pub fn dispatch(op: &str, _kind: &str, a: &mut Args) -> Option<String> {
             let y: MvGaussian = serde_json::from_str(&js).unwrap();
             format!("{} | {} {}", rt_json(&g), crate::wire::tok(&g.ln_f(&x)), crate::wire::tok(&y.ln_f(&x)))
         }
+        "VonMises" => {
+            let g = VonMises::new((r.gen::<f64>() * 6.0).min(6.28), pos(r)).unwrap();
+            let x = r.gen::<f64>() * 6.0;
+            let js = serde_json::to_string(&g).unwrap();
+            let y: VonMises = serde_json::from_str(&js).unwrap();
+            let z: VonMises = serde_yaml::from_str(&serde_yaml::to_string(&g).unwrap()).unwrap();
+            format!("{} | {} {} {}", rt(&g), crate::wire::tok(&g.ln_f(&x)), crate::wire::tok(&y.ln_f(&x)), crate::wire::tok(&z.ln_f(&x)))
+        }
+        "Categorical" => {
+            let k = 1 + (seed % 6) as usize;
+            let w: Vec<f64> = (0..k).map(|_| r.gen::<f64>() + 0.01).collect();
+            let g = Categorical::new(&w).unwrap();
+            let x = (seed % k as u64) as usize;
+            let js = serde_json::to_string(&g).unwrap();
+            let y: Categorical = serde_json::from_str(&js).unwrap();
+            format!("{} | {} {}", rt(&g), crate::wire::tok(&g.ln_f(&x)), crate::wire::tok(&y.ln_f(&x)))
+        }
+        "Dirichlet" => {
+            let k = 1 + (seed % 5) as usize;
+            let g = Dirichlet::new((0..k).map(|_| pos(r)).collect()).unwrap();
+            rt(&g)
+        }
+        "DiscreteUniform" => rt(&DiscreteUniform::<i32>::new(-((seed % 50) as i32) - 1, (seed % 17) as i32).unwrap()),
         "InvWishart" => rt_json(&InvWishart::new(spd(r, d), d + (seed % 5) as usize).unwrap()),
         "NormalInvWishart" => {
             let mu = DVector::from_fn(d, |_, _| real(r));
